@@ -243,7 +243,7 @@ var samCorrTexts = map[string][]string{
 	"fewfields": {""},
 	"badint":    {"x", "1.5", "", "12a", "--1", "0x1F", "1e3", " 1", "9223372036854775808", "1 ", "-", "+", "+-1", "-+1", "*", ".", "1_000", "\u0661"},
 	"tagcolons": {"XX", "XX:i", "XXi1", "X", "", "XX:Z", "XX:H", "XX:B", "XX:A", "XX:f", "Z:XX", ":Z"},
-	"tagtype":   {"XX:Q:1", "XX::1", "XX:ii:1", "XX:I:1", "XX:z:a"},
+	"tagtype":   {"XX:Q:1", "XX::1", "XX:ii:1", "XX:I:1", "XX:z:a", ":X:i:5", "a::Z:v", ":a:Z:v", "::Z:v", "X::i:5", "::::", ":::"},
 	// (type B is not an unknown type for this library: it is accepted and kept as a string)
 	"tagvalue": {"XX:i:abc", "XX:i:1.5", "XX:i:", "XX:f:abc", "XX:f:", "XX:H:xyz", "XX:H:abc", "XX:A:ab", "XX:A:", "XX:i:9223372036854775808"},
 }
